@@ -105,25 +105,40 @@ func init() {
 	}
 	// ---- C09
 	{
-		var clean, gone []dlParams
+		var clean, gone, stops, rem []dlParams
 		for tgt := 0; tgt <= 3; tgt++ {
 			for msg := 0; msg <= 2; msg++ {
 				for _, snd := range []bool{false, true} {
 					clean = append(clean, dlParams{Target: tgt, Msg: msg, Sender: snd, Subs: msg % 2, Threads: 1, PerT: 2})
-					gone = append(gone, dlParams{Target: tgt, Msg: msg, Sender: snd, Subs: 2, Threads: 1, PerT: 1})
+					gone = append(gone, dlParams{Target: tgt, Msg: msg, Sender: snd, Subs: 2 + (tgt+msg)%2, Threads: 1, PerT: 1})
 				}
 			}
+			for _, op := range []int{1, 2, 3} {
+				stops = append(stops, dlParams{Target: tgt, Op: op, Subs: op % 2, Threads: 1, PerT: 1 + op%2, Sender: op == 3})
+				stops = append(stops, dlParams{Target: tgt, Op: op, Subs: 3, Threads: 1, PerT: 1})
+			}
+			for _, subs := range []int{0, 2, 3} {
+				rem = append(rem, dlParams{Target: tgt, Msg: tgt % 3, Subs: subs, Threads: 1, PerT: 1, Remote: true, Sender: tgt == 1})
+			}
+			rem = append(rem, dlParams{Target: tgt, Op: 1, Subs: 2, Threads: 1, PerT: 1, Remote: true})
 		}
-		conc := []dlParams{{Target: 1, Threads: 2, PerT: 1, Subs: 1}, {Target: 2, Threads: 2, PerT: 2, Subs: 0, Sender: true}, {Target: 3, Threads: 2, PerT: 1, Subs: 1}}
+		conc := []dlParams{{Target: 1, Threads: 2, PerT: 1, Subs: 1}, {Target: 2, Threads: 2, PerT: 2, Subs: 0, Sender: true}, {Target: 3, Threads: 2, PerT: 1, Subs: 1},
+			{Target: 1, Threads: 2, PerT: 1, Subs: 3, Op: 1}, {Target: 2, Threads: 2, PerT: 1, Subs: 0, Op: 2}}
 		Register(&Job{Name: "C09/engine/targets-x-messages", Prop: "C09", Bound: 1, BoundT: 2, Budget: 40, BudgetT: 600,
-			Desc: "targets {nil, never spawned, stopped, foreign address} x messages {int, string, pointer} x sender {nil, P} x {1,2} monitors, 2 sends each",
+			Desc: "targets {nil, never spawned, stopped, foreign address} x messages {int, string, pointer} x sender {nil, P} x {1,2} monitors, 2 sends each, then a probe send: exactly one event per undeliverable send at every monitor, event stream intact afterwards",
 			Make: func() vsched.Instance { return engDeadLetter(clean) }})
-		Register(&Job{Name: "C09/engine/concurrent-senders", Prop: "C09", Bound: 2, BoundT: 3, Budget: 40, BudgetT: 600,
-			Desc: "2 sender threads x 1-2 sends to unregistered/foreign targets, 1-2 monitors",
+		Register(&Job{Name: "C09/engine/stop-requests-and-sendlocal", Prop: "C09", Bound: 1, BoundT: 2, Budget: 40, BudgetT: 600, Shards: 4,
+			Desc: "Poison / Stop / SendLocal aimed at nil, never spawned, stopped and foreign-address PIDs (1-2 requests), with 1-2 monitors or a subscriber that stops just before: exactly one DeadLetterEvent per request, returned context already done, no panic, event stream intact",
+			Make: func() vsched.Instance { return engDeadLetter(stops) }})
+		Register(&Job{Name: "C09/engine/concurrent-senders", Prop: "C09", Bound: 2, BoundT: 3, Budget: 40, BudgetT: 600, Shards: 5,
+			Desc: "2 sender threads x 1-2 sends / stop requests to unregistered or foreign targets, 1-2 monitors, a subscriber stopping just before",
 			Make: func() vsched.Instance { return engDeadLetter(conc) }})
 		Register(&Job{Name: "C09/engine/gone-subscriber", Prop: "C09", Bound: 1, BoundT: 2, Budget: 40, BudgetT: 600, Horizon: 6000,
-			Desc: "as targets-x-messages with one monitor plus a subscriber that has since stopped without unsubscribing: finiteness and exactly-once at the live monitor",
+			Desc: "as targets-x-messages with one monitor plus a subscriber that stopped without unsubscribing (earlier, or right before the sends: the monitor must still see its ActorStoppedEvent): finiteness and exactly-once at the live monitor",
 			Make: func() vsched.Instance { return engDeadLetter(gone) }})
+		Register(&Job{Name: "C09/engine/with-remote", Prop: "C09", Bound: 1, BoundT: 2, Budget: 40, BudgetT: 600, Horizon: 6000, Shards: 4,
+			Desc: "the same on an engine that has a remote (address is not \"local\"; outbound messages captured by a pool Remoter): local misses still dead-letter once, foreign targets are handed to the remote without event, a gone subscriber does not start a feedback loop",
+			Make: func() vsched.Instance { return engDeadLetter(rem) }})
 	}
 	// ---- C11
 	{
